@@ -141,6 +141,23 @@ func (ri *refInterp) body(fr *frame, b []*Stmt) {
 			} else {
 				ri.call(fr, s)
 			}
+		case "o":
+			c := ri.lookup(fr, s.V)
+			if _, ok := c.arr["k"]; !ok {
+				c.arr["k"] = ""
+			}
+			ri.lookup(fr, "O_").s += c.arr["k"]
+		case "m":
+			c := ri.lookup(fr, s.V)
+			if _, ok := c.arr["k"]; ok {
+				ri.lookup(fr, "M_").s += s.Tag
+			}
+		case "f":
+			c := ri.lookup(fr, s.V)
+			ri.lookup(fr, "K_") // the loop variable exists; its value depends on the iteration order
+			for range c.arr {
+				ri.lookup(fr, "N_").s += s.Tag
+			}
 		case "p":
 			c := ri.lookup(fr, s.V)
 			if s.Form == 0 {
@@ -182,7 +199,7 @@ func addDump(p *Prog) {
 	}
 	var b []*Stmt
 	for _, v := range inf.Vars {
-		if v.Fn != "" || v.V == guardVar || v.V == "ARGV" || v.V == "ENVIRON" || v.V == "FIELDS" {
+		if v.Fn != "" || v.V == guardVar || v.V == "ARGV" || v.V == "ENVIRON" || v.V == "FIELDS" || v.V == "K_" {
 			continue
 		}
 		switch inf.Forced[v] {
